@@ -205,7 +205,7 @@ class Ladder(Sub):
 class DenseMethods(Sub):
     name = 'dense-methods'
     doc = 'hybr / lm (dense Jacobian) on 128-point grids, 1-2 types'
-    budget = {'quick': 8, 'thorough': 320}
+    budget = {'quick': 24, 'thorough': 640}
     shrink = {'quick': False, 'thorough': False}
 
     def strategy(self, tier):
